@@ -247,12 +247,13 @@ def coq_deps(relfiles):
             continue
         seen.append(f)
         txt = strip_comments(open(path).read())
-        for m in re.finditer(r'From\s+BCT\s+Require\s+(?:Import|Export)?\s*([^.]*(?:\.[A-Za-z_][^.\s]*)*)\s*\.', txt):
+        for m in re.finditer(r'From\s+BCT\s+Require\s+(?:Import\s+|Export\s+)?(.*?)\.(?:\s|$)', txt, re.S):
             for name in m.group(1).split():
                 todo.append(name.replace('.', '/') + '.v')
-        for m in re.finditer(r'Require\s+(?:Import|Export)\s+((?:BCT\.[A-Za-z_.]+\s*)+)\.', txt):
+        for m in re.finditer(r'Require\s+(?:Import\s+|Export\s+)?(.*?)\.(?:\s|$)', txt, re.S):
             for name in m.group(1).split():
-                todo.append(name[4:].replace('.', '/') + '.v')
+                if name.startswith('BCT.'):
+                    todo.append(name[4:].replace('.', '/') + '.v')
     return sorted(seen)
 
 
